@@ -16,7 +16,7 @@ theorem attempt_out (pick : Pick) (f : Req → Sub) {s : State} {m : InFlight} {
 theorem extract_W (f : Req → Sub) {s : State} (hi : Idle s) (hb : ∀ b ∈ s.builders, BFun f b)
     {s1 : State} {m : InFlight} (he : s.extract = (s1, some m)) :
     ∃ U, Mid s1 m U [] true ∧ (∀ b ∈ s1.builders, BFun f b) ∧ (∀ r ∈ m.streams, f r ∈ U) ∧
-      (∀ u t, AttQ u t s → AttQ u t s1 ∨ (t = (m.topic : Nat) ∧ u ∈ U)) ∧
+      (∀ u t r, AttQ u t r s → AttQ u t r s1 ∨ (t = (m.topic : Nat) ∧ u ∈ U)) ∧
       s1.closedStreams = s.closedStreams ∧ s1.waiters = s.waiters ∧ s1.log = s.log := by
   obtain ⟨pre, b, U, hbs, hemp, hmt, hms, hmid, hU, hc, hw, hl⟩ := extract_detail hi he
   have hbm : b ∈ s.builders := by rw [hbs]; simp
@@ -26,13 +26,13 @@ theorem extract_W (f : Req → Sub) {s : State} (hi : Idle s) (hb : ∀ b ∈ s.
     rw [hms] at hr
     obtain ⟨e, he', rfl⟩ := List.mem_map.mp hr
     exact (hU _).mpr ⟨e.1, (hb b hbm).streams e he'⟩
-  · intro u t ⟨x, hx, ha⟩
+  · intro u t r ⟨x, hx, ha⟩
     rw [hbs] at hx
     rcases List.mem_append.mp hx with hx | hx
     · have := ha.nonempty; rw [hemp x hx] at this; cases this
     · rcases List.mem_cons.mp hx with rfl | hx
       · right
-        obtain ⟨ht, r, hr, _⟩ := ha
+        obtain ⟨ht, hr, _⟩ := ha
         exact ⟨by rw [hmt]; exact ht.symm, (hU u).mpr ⟨r, hr⟩⟩
       · exact Or.inl ⟨x, hx, ha⟩
 
@@ -40,14 +40,14 @@ theorem extract_W (f : Req → Sub) {s : State} (hi : Idle s) (hb : ∀ b ∈ s.
     been told something about the message itself) -/
 structure OutW (f : Req → Sub) (s s' : State) : Prop where
   bfun : (∀ b ∈ s.builders, BFun f b) → ∀ b ∈ s'.builders, BFun f b
-  w : (∀ b ∈ s.builders, BFun f b) → ∀ u t, W f u t s → W f u t s'
+  w : (∀ b ∈ s.builders, BFun f b) → ∀ u t r n0, W u t r n0 s → W u t r n0 s'
   wcore : WCore s s'
 
 theorem Out.toW {f : Req → Sub} {s s' : State} (o : Out f s s') : OutW f s s' :=
-  ⟨fun h => (o.att h).1, fun h _ _ hw => W.of_out o h hw, o.wcore⟩
+  ⟨fun h => (o.att h).1, fun h _ _ _ _ hw => W.of_out o h hw, o.wcore⟩
 
 theorem OutW.trans {f : Req → Sub} {a b c : State} (h1 : OutW f a b) (h2 : OutW f b c) : OutW f a c :=
-  ⟨fun h => h2.bfun (h1.bfun h), fun h u t hw => h2.w (h1.bfun h) u t (h1.w h u t hw), h1.wcore.trans h2.wcore⟩
+  ⟨fun h => h2.bfun (h1.bfun h), fun h u t r n0 hw => h2.w (h1.bfun h) u t r n0 (h1.w h u t r n0 hw), h1.wcore.trans h2.wcore⟩
 
 /-- extraction followed by a publication to the message's subscribers -/
 theorem extract_publish_W (f : Req → Sub) {s : State} (hi : Idle s) {s1 : State} {m : InFlight}
@@ -64,11 +64,11 @@ theorem extract_publish_W (f : Req → Sub) {s : State} (hi : Idle s) {s1 : Stat
       exact ⟨X, by rw [hx, hl]⟩
     refine ⟨U, Or.inl ⟨hp, hU, ?_, ?_, ?_⟩⟩
     · intro _; rw [fr.builders]; exact hb1
-    · intro _ u t hw'
-      rcases hw' with h | h | h
-      · rcases hatt u t h with h' | ⟨ht, hu⟩
+    · intro _ u t r n0 hw'
+      rcases hw' with ⟨h, hn0⟩ | h | h
+      · rcases hatt u t r h with h' | ⟨ht, hu⟩
         · obtain ⟨x, hx, ha⟩ := h'
-          exact Or.inl ⟨x, by rw [fr.builders]; exact hx, ha⟩
+          exact Or.inl ⟨⟨x, by rw [fr.builders]; exact hx, ha⟩, Nat.le_trans hn0 (errCount_mono hlog u)⟩
         · right; left
           rw [ht, hp.seqM u, if_pos hu]; simp
       · exact Or.inr (Or.inl ((seq_mono hlog u t).1 h))
@@ -94,8 +94,8 @@ theorem drain_W (pick : Pick) (f : Req → Sub) : ∀ (fuel : Nat) (s : State), 
           · cases he; exact ⟨rfl, rfl, rfl⟩
           · cases he
         refine ⟨fun _ b hb => (by rw [a1] at hb; cases hb), ?_, (by unfold WCore; rw [hrest.2.1])⟩
-        intro _ u t hw
-        rcases hw with ⟨x, hx, ha⟩ | h | h
+        intro _ u t r n0 hw
+        rcases hw with ⟨⟨x, hx, ha⟩, _⟩ | h | h
         · have := ha.nonempty; rw [a2 x hx] at this; cases this
         · exact Or.inr (Or.inl (by rw [hrest.2.2]; exact h))
         · exact Or.inr (Or.inr (h.mono (fun r hr => by rw [hrest.1]; exact hr) ⟨[], by rw [hrest.2.2]; simp⟩))
@@ -115,18 +115,18 @@ theorem drain_W (pick : Pick) (f : Req → Sub) : ∀ (fuel : Nat) (s : State), 
           -- the first leg, by hand: the extracted message's subscribers get the Error
           have o01 : OutW f s ((s1.publishError pick m).closeTopic m.topic) := by
             refine ⟨fun _ => o1.bfun hb1, ?_, ?_⟩
-            · intro _ u t hw'
-              rcases hw' with h | h | h
-              · rcases hatt u t h with h' | ⟨ht, hu⟩
-                · exact o1.w hb1 u t (Or.inl h')
+            · intro _ u t r n0 hw'
+              rcases hw' with ⟨h, hn0⟩ | h | h
+              · rcases hatt u t r h with h' | ⟨ht, hu⟩
+                · exact o1.w hb1 u t r n0 (Or.inl ⟨h', by rw [hl]; exact hn0⟩)
                 · right; left
                   have hs : seqOf u t (s1.publishError pick m).log ≠ [] := by
                     rw [ht, hmid2.seqM u, if_pos hu]; simp
                   exact (seq_mono (closeTopic_ext pick _ m.topic).mono u t).1 hs
               · have : seqOf u t s1.log ≠ [] := by rw [hl]; exact h
-                exact o1.w hb1 u t (Or.inr (Or.inl this))
-              · have : ErrSeen f u s1 := h.mono (fun r hr => by rw [hc]; exact hr) ⟨[], by rw [hl]; simp⟩
-                exact o1.w hb1 u t (Or.inr (Or.inr this))
+                exact o1.w hb1 u t r n0 (Or.inr (Or.inl this))
+              · have : ErrSeen r u n0 s1 := h.mono (fun r hr => by rw [hc]; exact hr) ⟨[], by rw [hl]; simp⟩
+                exact o1.w hb1 u t r n0 (Or.inr (Or.inr this))
             · exact (WCore.of_eq hw).trans o1.wcore
           exact o01.trans o2
         · exact ⟨fun h => absurd h hb, fun h => absurd h hb, by
